@@ -67,7 +67,8 @@ def val_unjson(j):
 
 
 LEVEL = "proof"
-THEOREMS = ["C12_compile_correct", "C12_compile_total", "C12_conj", "C12_api_agree", "C12_api_sql", "C12_typed_evaluates", "C12_refused_raises",
+THEOREMS = ["C12_compile_correct", "C12_compile_total", "C12_conj", "C12_api_agree", "C12_api_sql", "C12_api_sql_sound_bounds", "C12_text_bounds_conservative", "C12_prefix_lower_bound",
+            "C12_prefix_upper_bound_refuted", "C12_typed_evaluates", "C12_refused_raises",
             "C12_strict", "C12_strict_everywhere", "C12_operator_faithful", "C12_operator_table", "C12_special_keys", "C12_project_after",
             "C12_api_agree_empty_projection_refuted"]
 GEN_FILES = ["GenFilter.v", "GenFilterConst.v", "GenPrune.v"]
@@ -192,72 +193,139 @@ def rand_case(rng, s: str) -> str:
     return "".join(ch.upper() if rng.random() < 0.5 else ch for ch in s)
 
 
-def gen_rows(rng, cols: List[str], kinds: List[str], n: int) -> List[Dict[str, Any]]:
+# Long text sharing long prefixes (URLs, payloads, composite keys): a string column's bounds are compared with
+# the literal as whole strings, so a bound that is only a PREFIX of the real extreme (or any other inexact
+# stored statistic) shows up only when values and literals differ beyond that prefix.  Lengths straddle 128,
+# 1000 and 4096 characters.
+_P = "k" * 128
+_U = "https://example.org/" + "segment/" * 30            # 260 characters
+MODEL_LONG_TEXT = ["", "a", _P[:127], _P, _P + "a", _P + "b", _P[:127] + "j", _P + "kk" + "m"]   # short enough for Coq terms
+LONG_TEXT = ["", "a", "z", _P[:127], _P, _P + "a", _P + "b", _P + "b" * 900, _P[:127] + "j", _P + "k" * 1100 + "m",
+             _P + "k" * 1100 + "n", _U, _U + "a", _U + "a/b", _U[:128], _U + "z" * 1500, _U + "z" * 5000 + "!"]
+
+
+def neighbours(v: Any) -> List[Any]:
+    """Literals just at / below / above a value, of the same kind."""
+    if isinstance(v, bool) or v is None:
+        return [v]
+    if isinstance(v, int):
+        return [v, v - 1, v + 1]
+    if isinstance(v, float):
+        return [v] if v != v or v in (float("inf"), float("-inf")) else [v, v - 0.5, v + 0.5]
+    if isinstance(v, str):
+        return [v, v + "a", v[:-1], v[:128], v[:128] + "\uffff", v + "\x00"]
+    if isinstance(v, bytes):
+        return [v, v + b"a", v[:-1], v + b"\x00"]
+    if isinstance(v, dt.datetime):
+        return [v, v + dt.timedelta(microseconds=1), v - dt.timedelta(microseconds=1)]
+    if isinstance(v, dt.date):
+        return [v, v + dt.timedelta(days=1), v - dt.timedelta(days=1)]
+    return [v]
+
+
+def col_dom(case: Dict[str, Any], i: int) -> List[Any]:
+    doms = case.get("doms")
+    return doms[i] if doms else DOMAIN[case["kinds"][i]]
+
+
+def gen_rows(rng, cols: List[str], kinds: List[str], n: int, doms: Optional[List[List[Any]]] = None) -> List[Dict[str, Any]]:
     rows = []
     for _ in range(n):
         r = {}
-        for c, k in zip(cols, kinds):
-            r[c] = None if rng.random() < 0.2 else canon_cell(k, rng.choice(DOMAIN[k]))
+        for i, (c, k) in enumerate(zip(cols, kinds)):
+            r[c] = None if rng.random() < 0.2 else canon_cell(k, rng.choice(doms[i] if doms else DOMAIN[k]))
         rows.append(r)
     return rows
 
 
-def gen_literal(rng, kind: str, cross: float) -> Any:
+def gen_literal(rng, kind: str, cross: float, dom: Optional[List[Any]] = None) -> Any:
     if rng.random() < cross:
         return rng.choice(LITERALS)
+    if dom is not None and dom is not DOMAIN.get(kind):
+        v = rng.choice(dom)
+        return rng.choice(neighbours(v)) if rng.random() < 0.5 else v
     v = rng.choice(DOMAIN[kind] + [x for x in LITERALS if sqlref.pykind(x) == sqlref.COLKIND[kind]])
     return v
 
 
-def gen_cond(rng, kind: str, cross: float = 0.15, malformed: float = 0.0) -> Tuple:
+def gen_cond(rng, kind: str, cross: float = 0.15, malformed: float = 0.0, dom: Optional[List[Any]] = None,
+             pick: Optional[Any] = None) -> Tuple:
+    """`pick`: optional literal source overriding the domain (used for literals at a file's min / max)."""
+    lit = (lambda c: pick()) if pick is not None else (lambda c: gen_literal(rng, kind, c, dom))
     r = rng.random()
     if r < malformed:
         m = rng.random()
         if m < 0.5:
-            return ("pair", ("str", rng.choice(UNKNOWN_OPS)), ("val", gen_literal(rng, kind, 0)))
+            return ("pair", ("str", rng.choice(UNKNOWN_OPS)), ("val", lit(0)))
         if m < 0.65:
-            return ("pair", ("other", rng.choice([5, None, 1.5, True])), ("val", gen_literal(rng, kind, 0)))
+            return ("pair", ("other", rng.choice([5, None, 1.5, True])), ("val", lit(0)))
         if m < 0.8:
             return ("plain", ("val", None))
         if m < 0.9:
-            return ("pair", ("str", "between"), ("tuple", [gen_literal(rng, kind, 0) for _ in range(rng.choice([0, 1, 3]))]))
+            return ("pair", ("str", "between"), ("tuple", [lit(0) for _ in range(rng.choice([0, 1, 3]))]))
         return ("pair", ("str", rng.choice(["in", "not_in"])), ("val", rng.choice([5, None, 1.5])))
     r = rng.random()
     if r < 0.12:
-        return ("plain", ("val", rng.choice([v for v in [gen_literal(rng, kind, cross) for _ in range(4)] if v is not None] or [0])))
+        return ("plain", ("val", rng.choice([v for v in [lit(cross) for _ in range(4)] if v is not None] or [0])))
     if r < 0.55:
         op = rng.choice(["==", "=", "eq", "!=", "<>", "ne", "<", "lt", "<=", "le", ">", "gt", ">=", "ge"])
-        return ("pair", ("str", rand_case(rng, op)), ("val", gen_literal(rng, kind, cross)))
+        return ("pair", ("str", rand_case(rng, op)), ("val", lit(cross)))
     if r < 0.8:
         op = rng.choice(["in", "not_in", "not in", "notin"])
         n = rng.choice([0, 1, 1, 2, 3])
-        vals = [None if rng.random() < 0.15 else gen_literal(rng, kind, cross) for _ in range(n)]
+        vals = [None if rng.random() < 0.15 else lit(cross) for _ in range(n)]
         return ("pair", ("str", rand_case(rng, op)), (rng.choice(["list", "tuple"]) if n != 2 else "list", vals))
     if r < 0.9:
-        lo, hi = gen_literal(rng, kind, cross), gen_literal(rng, kind, cross)
+        lo, hi = lit(cross), lit(cross)
         return ("pair", ("str", rand_case(rng, "between")), (rng.choice(["list", "tuple"]), [lo, hi]))
     op = rng.choice(["is_null", "isnull", "is_not_null", "notnull", "isnotnull"])
     return ("pair", ("str", rand_case(rng, op)), ("val", rng.choice([True, True, None, False])))
 
 
-def gen_table_case(rng, kinds_pool: List[str], cross: float, malformed: float, max_files: int = 4) -> Dict[str, Any]:
+def gen_table_case(rng, kinds_pool: List[str], cross: float, malformed: float, max_files: int = 4,
+                   long_text: float = 0.0, long_dom: Optional[List[Any]] = None) -> Dict[str, Any]:
+    long_dom = long_dom if long_dom is not None else LONG_TEXT
     ncols = rng.choice([1, 2, 2, 3])
     kinds = [rng.choice(kinds_pool) for _ in range(ncols)]
+    if long_text and rng.random() < long_text:
+        kinds[rng.randrange(ncols)] = "string"
     cols = [f"c{i}" for i in range(ncols)]
+    doms = [long_dom if (k == "string" and long_text and rng.random() < 0.6) else DOMAIN[k] for k in kinds]
     files = []
     for _ in range(rng.choice(list(range(0, max_files + 1)) + [1, 2])):
-        rows = gen_rows(rng, cols, kinds, rng.choice([1, 2, 3, 5]))
+        rows = gen_rows(rng, cols, kinds, rng.choice([1, 2, 3, 5]), doms)
         if rng.random() < 0.25:
             rows = [dict(rows[0]) for _ in rows]          # single-valued file (prunable)
         files.append(rows)
-    return {"cols": cols, "kinds": kinds, "files": files}
+    return {"cols": cols, "kinds": kinds, "files": files, "doms": doms}
 
 
-def gen_filter(rng, case: Dict[str, Any], cross: float, malformed: float) -> List[Tuple[str, Tuple]]:
+def file_extremes(case: Dict[str, Any], col: str) -> List[Any]:
+    """min and max of the column in each file (non-NULL, non-NaN values), i.e. what exact bounds would be."""
+    out = []
+    for f in case["files"]:
+        vs = [r[col] for r in f if r[col] is not None and r[col] == r[col]]
+        if vs:
+            try:
+                out += [min(vs), max(vs)]
+            except TypeError:
+                pass
+    return out
+
+
+def gen_filter(rng, case: Dict[str, Any], cross: float, malformed: float, boundary: float = 0.0) -> List[Tuple[str, Tuple]]:
     cols, kinds = case["cols"], case["kinds"]
     n = rng.choice([0, 1, 1, 1, 2, 2, 3])
     chosen = rng.sample(range(len(cols)), min(n, len(cols)))
-    return [(cols[i], gen_cond(rng, kinds[i], cross, malformed)) for i in chosen]
+    out = []
+    for i in chosen:
+        ext = file_extremes(case, cols[i]) if boundary and rng.random() < boundary else []
+        if ext:
+            # literals at / just below / just above some file's minimum or maximum: where pruning decides
+            out.append((cols[i], gen_cond(rng, kinds[i], 0.0, 0.0, pick=lambda e=ext: rng.choice(neighbours(rng.choice(e))))))
+        else:
+            out.append((cols[i], gen_cond(rng, kinds[i], cross, malformed, col_dom(case, i))))
+    return out
 
 
 def gen_columns(rng, case: Dict[str, Any]) -> Optional[List[str]]:
@@ -398,17 +466,92 @@ def case_unjson(d):
 
 # =================================================================================== oracles
 _TABLE_SEQ = [0]
+_PINNED = [0]
+_POOL: List[Any] = []
+
+
+def pool():
+    """The children that run every library operation (harness/lib/c12_worker.py)."""
+    from harness.lib import c12_worker
+    if not _POOL:
+        _POOL.append(c12_worker.Pool())
+    return _POOL[0]
+
+
+def w_run_table(path: str, case: Dict[str, Any], requests: List[Tuple[Optional[List[str]], Optional[Dict[str, Any]]]]):
+    """CHILD: build the table, run all 12 API variants for every (columns, filter dict)."""
+    table = make_table(path, case)
+    try:
+        return [run_apis(table, cols, fpy) for cols, fpy in requests]
+    finally:
+        shutil.rmtree(path, ignore_errors=True)
+
+
+def job_timeout(case: Dict[str, Any], nreq: int) -> float:
+    return 45.0 + 2.0 * len(case["files"]) + 4.0 * nreq
+
+
+def run_tables(ctx, jobs: List[Tuple[Dict[str, Any], List[Tuple[List[Tuple[str, Tuple]], Optional[List[str]], Optional[Dict[str, Any]]]], str]]):
+    """jobs: (case, [(flt, columns, filter dict)], source).  Runs them on the pool; returns per job the list of
+    API results (None where the library could not be run).  A job that hangs, dies or fails outside the scan APIs is
+    re-run request by request to pin the input down, and reported."""
+    pj = []
+    for case, reqs, _src in jobs:
+        _TABLE_SEQ[0] += 1
+        pj.append(("w_run_table", (os.path.join(ctx.scratch, f"w{_TABLE_SEQ[0]}"), {k: case[k] for k in ("cols", "kinds", "files")},
+                                   [(c, f) for _flt, c, f in reqs]), job_timeout(case, len(reqs))))
+    res = pool().map(pj)
+    out = []
+    for (case, reqs, src), (status, val) in zip(jobs, res):
+        if status == "ok":
+            out.append(val)
+            continue
+        if status == "skipped":
+            ctx.stats["jobs_skipped_after_hangs"] = ctx.stats.get("jobs_skipped_after_hangs", 0) + 1
+            out.append([None] * len(reqs))
+            continue
+        # pin the input down: the requests one by one, up to the first that fails alone (for the first two failing jobs)
+        single: List[Any] = [None] * len(reqs)
+        _PINNED[0] += 1
+        pinned = False
+        for k, (flt, cols, fpy) in enumerate(reqs or [([], None, None)]):
+            if _PINNED[0] > 2:
+                break
+            _TABLE_SEQ[0] += 1
+            st, v = pool().call("w_run_table", (os.path.join(ctx.scratch, f"w{_TABLE_SEQ[0]}"), {k2: case[k2] for k2 in ("cols", "kinds", "files")}, [(cols, fpy)]),
+                                job_timeout(case, 1))
+            if st == "ok":
+                if reqs:
+                    single[k] = v[0]
+                continue
+            pinned = True
+            if st in ("timeout", "died", "skipped"):
+                ctx.violation(f"library-{'died' if st == 'died' else 'hang'}:scan",
+                              f"[{src}] the library did not finish ({st} {v}) on filter {sqlref.filter_py(flt)!r} columns={cols}",
+                              case_json(case, flt, cols, {"verdict": "library-" + st, "detail": repr(v)}))
+            else:
+                ctx.proof_problems.append(f"case could not be run [{src}]: {str(v)[-400:]}")
+            break
+        if not pinned:
+            if status in ("timeout", "died"):
+                flt0, cols0 = (reqs[0][0], reqs[0][1]) if reqs else ([], None)
+                ctx.violation(f"library-{'died' if status == 'died' else 'hang'}:scan",
+                              f"[{src}] the library did not finish ({status} {val}) on a table with {len(reqs)} filters; first: {sqlref.filter_py(flt0)!r}",
+                              case_json(case, flt0, cols0, {"verdict": "library-" + status, "detail": repr(val), "note": "not pinned to one filter"}))
+            else:
+                ctx.proof_problems.append(f"case could not be run [{src}]: {str(val)[-400:]}")
+        out.append(single)
+    ctx.stats["worker_pool"] = {"children": len(pool().children), "restarts": pool().restarts, "timeouts": pool().timeouts,
+                                "slowest_job_s": round(pool().slowest, 1)}
+    return out
 
 
 def evaluate_case(ctx, case, flt, columns) -> Tuple[Optional[Tuple[str, str]], Dict[str, Any]]:
-    _TABLE_SEQ[0] += 1
-    path = os.path.join(ctx.scratch, f"e{_TABLE_SEQ[0]}")
-    table = make_table(path, case)
-    try:
-        results = run_apis(table, columns, sqlref.filter_py(flt) if flt is not None else None)
-    finally:
-        shutil.rmtree(path, ignore_errors=True)
-    return judge(case, flt or [], columns, results), results
+    fpy = sqlref.filter_py(flt) if flt is not None else None
+    res = run_tables(ctx, [(case, [(flt or [], columns, fpy)], "single case")])[0]
+    if not res or res[0] is None:
+        raise RuntimeError("case could not be run")
+    return judge(case, flt or [], columns, res[0]), res[0]
 
 
 def shrink(ctx, case, flt, columns, key: str, budget: int = 60):
@@ -461,7 +604,10 @@ def shrink(ctx, case, flt, columns, key: str, budget: int = 60):
 def report(ctx, verdict, case, flt, columns, results, source: str) -> None:
     key, text = verdict
     case, flt, columns = shrink(ctx, case, flt, columns, key)
-    v2, results2 = evaluate_case(ctx, case, flt, columns)
+    try:
+        v2, results2 = evaluate_case(ctx, case, flt, columns)
+    except RuntimeError:
+        v2, results2 = None, results
     if v2 is not None and v2[0] == key:
         text, results = v2[1], results2
     sub = "other"
@@ -513,13 +659,26 @@ CORPUS: List[Dict[str, Any]] = [
 ]
 
 
+def judge_all(ctx, jobs, results, tag: str) -> int:
+    n = 0
+    for (case, reqs, src), res in zip(jobs, results):
+        for (flt, columns, _fpy), r in zip(reqs, res):
+            if r is None:
+                continue
+            n += 1
+            ctx.count(len(API_VARIANTS), (tag, repr(case["files"]), repr(flt), repr(columns)))
+            verdict = judge(case, flt, columns, r)
+            if verdict:
+                report(ctx, verdict, case, flt, columns, r, src)
+    return n
+
+
 def oracle_corpus(ctx) -> None:
+    jobs = []
     for ent in CORPUS:
         case = {"cols": ent["cols"], "kinds": ent["kinds"], "files": ent["files"]}
-        verdict, results = evaluate_case(ctx, case, ent["filter"], ent["columns"])
-        ctx.count(len(API_VARIANTS), ("corpus", ent["name"]))
-        if verdict:
-            report(ctx, verdict, case, ent["filter"], ent["columns"], results, "corpus: " + ent["name"])
+        jobs.append((case, [(ent["filter"], ent["columns"], sqlref.filter_py(ent["filter"]))], "corpus: " + ent["name"]))
+    judge_all(ctx, jobs, run_tables(ctx, jobs), "corpus")
     ctx.stats["corpus_cases"] = len(CORPUS)
 
 
@@ -533,30 +692,24 @@ MALFORMED: List[Tuple[str, Tuple]] = (
 
 def oracle_malformed(ctx) -> None:
     """Each malformed condition, alone and next to a valid one, on an empty, a populated and an all-pruned table."""
-    n = 0
     tables = {
         "empty": {"cols": ["x", "k"], "kinds": ["long", "long"], "files": []},
         "populated": {"cols": ["x", "k"], "kinds": ["long", "long"], "files": [[{"x": 1, "k": 1}, {"x": None, "k": 2}], [{"x": 3, "k": None}]]},
     }
     conds = MALFORMED if ctx.tier == "thorough" else MALFORMED[:6] + MALFORMED[len(UNKNOWN_OPS):]
+    jobs = []
     for tname, case in tables.items():
-        path = os.path.join(ctx.scratch, "m_" + tname)
-        table = make_table(path, case)
-        for what, cond in conds:
+        reqs = []
+        for _what, cond in conds:
             for flt in ([("x", cond)], [("k", ("pair", ("str", ">"), ("val", 100))), ("x", cond)]):
-                n += 1
-                results = run_apis(table, None, sqlref.filter_py(flt))
-                ctx.count(len(API_VARIANTS), ("malformed", tname, repr(flt)))
-                verdict = judge(case, flt, None, results)
-                if verdict:
-                    report(ctx, verdict, case, flt, None, results, f"malformed ({what}) on {tname} table")
-        shutil.rmtree(path, ignore_errors=True)
-    ctx.stats["malformed_cases"] = n
+                reqs.append((flt, None, sqlref.filter_py(flt)))
+        jobs.append((case, reqs, f"malformed filters on the {tname} table"))
+    ctx.stats["malformed_cases"] = judge_all(ctx, jobs, run_tables(ctx, jobs), "malformed")
 
 
-def edge_filters(kind: str) -> List[List[Tuple[str, Tuple]]]:
+def edge_filters(kind: str, dom: Optional[List[Any]] = None) -> List[List[Tuple[str, Tuple]]]:
     """Systematic NULL / empty-set / alias edge cases for one column type (column c0; c1 is a long)."""
-    dom = DOMAIN[kind]
+    dom = dom or DOMAIN[kind]
     a, b = dom[0], dom[-1]
     P = lambda op, arg: ("pair", ("str", op), arg)
     out = [
@@ -579,49 +732,112 @@ def edge_filters(kind: str) -> List[List[Tuple[str, Tuple]]]:
 
 
 def oracle_edges(ctx) -> None:
-    n = 0
+    jobs = []
     for kind in MODEL_KINDS + NOBOUNDS_KINDS:
         dom = [canon_cell(kind, v) for v in DOMAIN[kind]]
         rows = [{"c0": v, "c1": i % 3} for i, v in enumerate(dom)] + [{"c0": None, "c1": 1}, {"c0": dom[0], "c1": None}, {"c0": None, "c1": None}]
         case = {"cols": ["c0", "c1"], "kinds": [kind, "long"], "files": [rows[:2], rows[2:], [dict(rows[0])]]}
-        path = os.path.join(ctx.scratch, "edge_" + kind)
-        table = make_table(path, case)
+        reqs = []
         for k, flt in enumerate(edge_filters(kind)):
             for columns in ((None, ["c1"]) if ctx.tier == "thorough" else ((None,) if k % 2 else (["c1"],))):
-                n += 1
-                results = run_apis(table, columns, sqlref.filter_py(flt))
-                ctx.count(len(API_VARIANTS), ("edges", kind, repr(flt), repr(columns)))
-                verdict = judge(case, flt, columns, results)
-                if verdict:
-                    report(ctx, verdict, case, flt, columns, results, f"edge cases on a {kind} column")
-        shutil.rmtree(path, ignore_errors=True)
-    ctx.stats["edge_cases"] = n
+                reqs.append((flt, columns, sqlref.filter_py(flt)))
+        jobs.append((case, reqs, f"edge cases on a {kind} column"))
+    ctx.stats["edge_cases"] = judge_all(ctx, jobs, run_tables(ctx, jobs), "edges")
+
+
+def extreme_filters(col: str, ext: List[Any], other: Optional[str]) -> List[List[Tuple[str, Tuple]]]:
+    """Filters whose literals sit at / just below / just above the minimum and the maximum of each file: the inputs on
+    which file pruning decides, and on which an inexact stored bound (rounded, truncated, widened the wrong way) loses rows."""
+    P = lambda op, arg: ("pair", ("str", op), arg)
+    lits: List[Any] = []
+    for e in ext:
+        for v in neighbours(e):
+            if not any(type(v) is type(w) and (v == w) for w in lits):
+                lits.append(v)
+    out: List[List[Tuple[str, Tuple]]] = []
+    for v in lits:
+        for op in ("==", ">=", ">", "<=", "<", "!="):
+            out.append([(col, P(op, ("val", v)))])
+        out.append([(col, P("in", ("list", [v])))])
+        out.append([(col, P("not_in", ("list", [v, None])))])
+    for lo in ext:
+        for hi in ext:
+            out.append([(col, P("between", ("tuple", [lo, hi])))])
+    top = max(ext) if ext else None
+    if top is not None:
+        for v in neighbours(top):
+            out.append([(col, P("between", ("tuple", [v, v])))])
+            out.append([(col, P("in", ("list", [v, min(ext)])))])
+            if other:
+                out.append([(col, P(">=", ("val", v))), (other, P("is_not_null", ("val", True)))])
+    return out
+
+
+def oracle_extremes(ctx) -> None:
+    """Per ordered column type -- and for LONG TEXT sharing prefixes beyond 128 / 1000 / 4096 characters -- a table of
+    several files with distinct value ranges, filtered with literals at and around every file's minimum and maximum."""
+    families: List[Tuple[str, str, List[Any]]] = [("string", "long text with shared prefixes", LONG_TEXT)]
+    for kind in MODEL_KINDS + NOBOUNDS_KINDS:
+        if kind != "boolean":
+            families.append((kind, kind, DOMAIN[kind]))
+    jobs = []
+    for kind, label, dom in families:
+        vals = []
+        for v in dom:
+            c = canon_cell(kind, v)
+            if c == c:
+                vals.append(c)
+        vals = sorted(set(vals)) if kind not in ("double", "float") else sorted(set(vals))
+        k3 = max(1, len(vals) // 3)
+        groups = [vals[:k3], vals[k3:2 * k3], vals[2 * k3:]]
+        files = [[{"c0": v, "c1": i} for i, v in enumerate(g)] + [{"c0": None, "c1": 7}] for g in groups if g]
+        files.append([{"c0": vals[-1], "c1": 9}])                       # single-valued file holding the overall maximum
+        case = {"cols": ["c0", "c1"], "kinds": [kind, "long"], "files": files}
+        ext = file_extremes(case, "c0")
+        flts = extreme_filters("c0", ext, "c1")
+        if ctx.tier == "quick" and label != "long text with shared prefixes":
+            flts = ctx.rng.sample(flts, min(len(flts), 40))
+        reqs = []
+        for k, flt in enumerate(flts):
+            columns = None if k % 3 else ["c1"]
+            reqs.append((flt, columns, sqlref.filter_py(flt)))
+        # several jobs per family so that the pool shares the work
+        step = 60
+        for a in range(0, len(reqs), step):
+            jobs.append((case, reqs[a:a + step], f"literals at the file extremes of a {label} column"))
+    ctx.stats["extreme_cases"] = judge_all(ctx, jobs, run_tables(ctx, jobs), "extremes")
 
 
 def oracle_e2e(ctx) -> None:
     rng = ctx.rng
-    ntables = 75 if ctx.tier == "quick" else 600
+    ntables = 120 if ctx.tier == "quick" else 900
     nfilters = 10 if ctx.tier == "quick" else 14
-    total = 0
-    stats = {"all_raise": 0, "empty_result": 0, "nonempty_result": 0, "projected": 0, "empty_tables": 0}
+    stats = {"all_raise": 0, "empty_result": 0, "nonempty_result": 0, "projected": 0, "empty_tables": 0, "tables_with_long_text": 0,
+             "filters_with_literal_at_a_file_extreme": 0}
     opmix: Dict[str, int] = {}
+    jobs = []
     for t in range(ntables):
-        case = gen_table_case(rng, E2E_KINDS, cross=0.15, malformed=0.1)
+        case = gen_table_case(rng, E2E_KINDS, cross=0.15, malformed=0.1, long_text=0.25)
         if not case["files"]:
             stats["empty_tables"] += 1
-        path = os.path.join(ctx.scratch, f"t{t}")
-        table = make_table(path, case)
+        if any(d is LONG_TEXT for d in case["doms"]):
+            stats["tables_with_long_text"] += 1
+        reqs = []
         for _ in range(nfilters):
-            flt = gen_filter(rng, case, cross=0.15, malformed=0.08)
+            flt = gen_filter(rng, case, cross=0.15, malformed=0.08, boundary=0.35)
             columns = gen_columns(rng, case)
             fpy = sqlref.filter_py(flt) if (flt or rng.random() < 0.5) else None
-            results = run_apis(table, columns, fpy)
-            total += 1
-            ctx.count(len(API_VARIANTS), ("e2e", repr(case["files"]), repr(flt), repr(columns)))
+            reqs.append((flt, columns, fpy))
             for _c, cd in flt:
                 k = str(cd[1][1]).lower() if cd[0] == "pair" else "plain"
                 opmix[k] = opmix.get(k, 0) + 1
-            first = next(iter(results.values()))
+        jobs.append((case, reqs, "random"))
+    results = run_tables(ctx, jobs)
+    for (case, reqs, _src), res in zip(jobs, results):
+        for (flt, columns, _f), r in zip(reqs, res):
+            if r is None:
+                continue
+            first = next(iter(r.values()))
             if first[0] == "raises":
                 stats["all_raise"] += 1
             elif first[1]:
@@ -630,12 +846,10 @@ def oracle_e2e(ctx) -> None:
                 stats["empty_result"] += 1
             if columns is not None:
                 stats["projected"] += 1
-            verdict = judge(case, flt, columns, results)
-            if verdict:
-                report(ctx, verdict, case, flt, columns, results, "random")
-            if total <= 2:
-                ctx.sample({"e2e_case": case_json(case, flt, columns), "outcome": {k: (v[1] if v[0] == "raises" else len(v[1])) for k, v in list(results.items())[:3]}})
-        shutil.rmtree(path, ignore_errors=True)
+    total = judge_all(ctx, jobs, results, "e2e")
+    if jobs and results and results[0] and results[0][0] is not None:
+        case, reqs, _ = jobs[0]
+        ctx.sample({"e2e_case": case_json(case, reqs[0][0], reqs[0][1]), "outcome": {k: (v[1] if v[0] == "raises" else len(v[1])) for k, v in list(results[0][0].items())[:3]}})
     ctx.stats["e2e_filters"] = total
     ctx.stats["e2e_api_calls"] = total * len(API_VARIANTS)
     ctx.stats["e2e_outcomes"] = stats
@@ -842,8 +1056,27 @@ def gen_parse_filter(rng) -> List[Tuple[str, Tuple]]:
     return flt
 
 
-def corr_parse(ctx) -> None:
+def w_parse(fpys: List[Dict[str, Any]]) -> List[Optional[List[Tuple[str, str, Any]]]]:
+    """CHILD: filters.parse_filter_dict on each filter dict -> [(column, op name, value)] or None when it raises."""
     from datashard import filters
+    out: List[Optional[List[Tuple[str, str, Any]]]] = []
+    for fpy in fpys:
+        try:
+            out.append([(e.column, e.op.name, e.value) for e in filters.parse_filter_dict(fpy)])
+        except Exception:  # noqa: BLE001
+            out.append(None)
+    return out
+
+
+def front_end_failed(ctx, what: str, status: str, val: Any) -> None:
+    if status in ("timeout", "died"):
+        ctx.violation(f"library-{'hang' if status == 'timeout' else 'died'}:{what}",
+                      f"the filter front end ({what}) did not finish: {status} {val}", {"verdict": "library-" + status, "phase": what})
+    else:
+        ctx.proof_problems.append(f"{what} could not be run: {str(val)[-400:]}")
+
+
+def corr_parse(ctx) -> None:
     rng = ctx.rng
     colnum = {f"c{i}": i for i in range(4)}
     cases = [[("c0", ("pair", ("str", s), ("val", 1)))] for s in OP_SPELLINGS + UNKNOWN_OPS + [s.upper() for s in OP_SPELLINGS]]
@@ -852,17 +1085,19 @@ def corr_parse(ctx) -> None:
     cases += [gen_parse_filter(rng) for _ in range(2500 if ctx.tier == "thorough" else 500)]
     exprs, impl = [], []
     accepted = 0
-    for flt in cases:
-        try:
-            es = filters.parse_filter_dict(sqlref.filter_py(flt))
+    status, parsed = pool().call("w_parse", ([sqlref.filter_py(f) for f in cases],), 120.0)
+    if status != "ok":
+        front_end_failed(ctx, "parse_filter_dict", status, parsed)
+        return
+    for flt, es in zip(cases, parsed):
+        if es is not None:
             items = []
-            for e in es:
-                v = e.value
+            for column, opname, v in es:
                 arg = f"(AList {vals_to_coq(list(v))})" if isinstance(v, (list, tuple)) else f"(AVal {val_to_coq(v)})"
-                items.append(f"({colnum[e.column]}, {e.op.name}, {arg})")
+                items.append(f"({colnum[column]}, {opname}, {arg})")
             exp = "Some [" + "; ".join(items) + "]"
             accepted += 1
-        except Exception:  # noqa: BLE001
+        else:
             exp = "None"
         impl.append(exp)
         exprs.append(f"(match parse {filter_coq(flt, colnum)} with Ok ps => Some (map (fun p => (pcol p, pop p, pval p)) ps) | Err _ => None end, "
@@ -886,10 +1121,10 @@ def refusable_pair(colkind: str, lit: Any) -> bool:
     return {k, lk} not in ({"int", "float"}, {"date", "ts"})
 
 
-def gen_model_literal(rng, kind: str, cross: float) -> Any:
+def gen_model_literal(rng, kind: str, cross: float, dom: Optional[List[Any]] = None) -> Any:
     """Literals the model decides exactly: same kind and exactly representable, or certainly-refused cross kind."""
     for _ in range(50):
-        v = gen_literal(rng, kind, cross)
+        v = gen_literal(rng, kind, cross, dom)
         if isinstance(v, bytes) or not refusable_pair(kind, v):
             continue
         if isinstance(v, float) and kind == "float" and not sqlref.f32_exact(v):
@@ -903,12 +1138,12 @@ def gen_model_literal(rng, kind: str, cross: float) -> Any:
     return None
 
 
-def gen_model_cond(rng, kind: str, cross: float, malformed: float) -> Tuple:
+def gen_model_cond(rng, kind: str, cross: float, malformed: float, dom: Optional[List[Any]] = None) -> Tuple:
     """Like gen_cond, restricted to what the model with X0/E0/PA0 decides exactly."""
     if rng.random() < malformed:
         return gen_cond(rng, kind, 0.0, 1.0)
     r = rng.random()
-    lit = lambda: gen_model_literal(rng, kind, cross)
+    lit = lambda: gen_model_literal(rng, kind, cross, dom)
     if r < 0.1:
         v = lit()
         return ("plain", ("val", v)) if v is not None else ("pair", ("str", "is_null"), ("val", True))
@@ -931,24 +1166,16 @@ def gen_model_cond(rng, kind: str, cross: float, malformed: float) -> Tuple:
     return ("pair", ("str", rand_case(rng, op)), ("val", rng.choice([True, None, False])))
 
 
-def corr_build(ctx) -> None:
-    """FilterExpression lists -> real to_pyarrow_compute_expression -> real Table.filter, vs build + filter_rows."""
+def w_build(cases: List[Tuple[List[str], List[Dict[str, Any]], Dict[str, Any]]]):
+    """CHILD: per case (kinds, rows, filter dict): None when parsing raises, else ([(column, op, value)], (phase, kept row indexes))."""
     import pyarrow as pa
     from datashard import filters
-    rng = ctx.rng
-    n = 5000 if ctx.tier == "thorough" else 600
-    exprs, impl, descs = [], [], []
-    for _ in range(n):
-        kinds = [rng.choice(KINDS), rng.choice(KINDS)]
-        cols = ["c0", "c1"]
-        colnum = {"c0": 0, "c1": 1, "i": 99}
-        rows = gen_rows(rng, cols, kinds, rng.choice([1, 2, 4, 6]))
-        flt = []
-        for i in rng.sample([0, 1], rng.choice([1, 1, 2])):
-            flt.append((cols[i], gen_model_cond(rng, kinds[i], 0.12, 0.0)))
+    out = []
+    for kinds, rows, fpy in cases:
         try:
-            fes = filters.parse_filter_dict(sqlref.filter_py(flt))
+            fes = filters.parse_filter_dict(fpy)
         except Exception:  # noqa: BLE001
+            out.append(None)
             continue
         table = pa.table({"c0": pa.array([r["c0"] for r in rows], arrow_type(kinds[0])),
                           "c1": pa.array([r["c1"] for r in rows], arrow_type(kinds[1])),
@@ -957,15 +1184,41 @@ def corr_build(ctx) -> None:
         try:
             expr = filters.to_pyarrow_compute_expression(fes)
             phase = 3
-            out = table.filter(expr).column("i").to_pylist() if expr is not None else list(range(len(rows)))
-            got = (0, out)
+            kept = table.filter(expr).column("i").to_pylist() if expr is not None else list(range(len(rows)))
+            got = (0, kept)
         except Exception:  # noqa: BLE001
             got = (phase, [])
+        out.append(([(e.column, e.op.name, e.value) for e in fes], got))
+    return out
+
+
+def corr_build(ctx) -> None:
+    """FilterExpression lists -> real to_pyarrow_compute_expression -> real Table.filter, vs build + filter_rows."""
+    rng = ctx.rng
+    n = 5000 if ctx.tier == "thorough" else 600
+    exprs, impl, descs = [], [], []
+    gen = []
+    for _ in range(n):
+        kinds = [rng.choice(KINDS), rng.choice(KINDS)]
+        cols = ["c0", "c1"]
+        rows = gen_rows(rng, cols, kinds, rng.choice([1, 2, 4, 6]))
+        flt = []
+        for i in rng.sample([0, 1], rng.choice([1, 1, 2])):
+            flt.append((cols[i], gen_model_cond(rng, kinds[i], 0.12, 0.0)))
+        gen.append((kinds, rows, flt))
+    status, built = pool().call("w_build", ([(k, r, sqlref.filter_py(f)) for k, r, f in gen],), 180.0)
+    if status != "ok":
+        front_end_failed(ctx, "to_pyarrow_compute_expression", status, built)
+        return
+    colnum = {"c0": 0, "c1": 1, "i": 99}
+    for (kinds, rows, flt), b in zip(gen, built):
+        if b is None:
+            continue
+        fes, got = b
         ps = []
-        for e in fes:
-            v = e.value
+        for column, opname, v in fes:
             arg = f"(AList {vals_to_coq(list(v))})" if isinstance(v, (list, tuple)) else f"(AVal {val_to_coq(v)})"
-            ps.append(f"{{| pcol := {colnum[e.column]}; pop := {e.op.name}; pval := {arg} |}}")
+            ps.append(f"{{| pcol := {colnum[column]}; pop := {opname}; pval := {arg} |}}")
         mrows = "[" + "; ".join(row_coq(dict(r, i=k), colnum) for k, r in enumerate(rows)) + "]"
         kinds_coq = f"[(0, {KIND_COQ[kinds[0]]}); (1, {KIND_COQ[kinds[1]]})]"
         exprs.append(f"code_of (bind (build PA0 [{'; '.join(ps)}]) (fun ce => bind (apply_filter X0 (E0 {kinds_coq}) ce {mrows}) (fun out => Ok (map idx out)))) []")
@@ -1011,35 +1264,82 @@ def phase_of(flt_py: Optional[Dict[str, Any]]) -> int:
     return 0
 
 
+def w_run_pipelines(path: str, case: Dict[str, Any], requests):
+    """CHILD: per (columns, filter dict): (front-end phase, [(outcome code, rows) per MODEL_APIS entry])."""
+    table = make_table(path, case)
+    out = []
+    try:
+        for columns, fpy in requests:
+            ph = phase_of(fpy)
+            gots = []
+            for _name, fn, _mkey in MODEL_APIS:
+                try:
+                    rows = fn(table, list(columns) if columns is not None else None, fpy)
+                    gots.append((0, rows))
+                except KeyError:
+                    gots.append((4, []))
+                except Exception:  # noqa: BLE001
+                    gots.append((ph if ph else 3, []))
+            out.append((ph, gots))
+    finally:
+        shutil.rmtree(path, ignore_errors=True)
+    return out
+
+
 def corr_pipelines(ctx) -> None:
     rng = ctx.rng
     ntables = 40 if ctx.tier == "quick" else 250
     nfilters = 8 if ctx.tier == "quick" else 12
     exprs, impl, descs = [], [], []
     order_equal = 0
+    gen = []
     for t in range(ntables):
-        case = gen_table_case(rng, KINDS, 0.0, 0.0, max_files=3)
-        cols, kinds = case["cols"], case["kinds"]
-        colnum = {c: i for i, c in enumerate(cols)}
-        colnum["zz"] = 50
-        path = os.path.join(ctx.scratch, f"p{t}")
-        table = make_table(path, case)
-        files_coq = "[" + "; ".join(f"{{| frows := {rows_coq(f, colnum)}; fcs := true |}}" for f in case["files"]) + "]"
-        sch = "[" + "; ".join(str(colnum[c]) for c in cols) + "]"
-        ids = "[" + "; ".join(f"({colnum[c]}, {i + 1})" for i, c in enumerate(cols)) + "]"
-        kinds_coq = "[" + "; ".join(f"({colnum[c]}, {KIND_COQ[k]})" for c, k in zip(cols, kinds)) + "]"
+        # some string columns hold text longer than 128 characters sharing its prefix: the model's bounds are the exact
+        # minimum / maximum (file_bounds), so an inexact stored bound shows as a pruning disagreement
+        case = gen_table_case(rng, KINDS, 0.0, 0.0, max_files=3, long_text=0.2, long_dom=MODEL_LONG_TEXT)
+        reqs = []
         for _ in range(nfilters):
             flt = []
             n = rng.choice([0, 1, 1, 2, 2, 3])
-            for i in rng.sample(range(len(cols)), min(n, len(cols))):
-                flt.append((cols[i], gen_model_cond(rng, kinds[i], 0.08, 0.06)))
+            for i in rng.sample(range(len(case["cols"])), min(n, len(case["cols"]))):
+                ext = file_extremes(case, case["cols"][i]) if col_dom(case, i) is MODEL_LONG_TEXT and rng.random() < 0.6 else []
+                if ext:
+                    v = rng.choice(neighbours(rng.choice(ext)))
+                    op = rng.choice(["==", ">=", ">", "<=", "<", "!=", "in"])
+                    flt.append((case["cols"][i], ("pair", ("str", op), ("list", [v]) if op == "in" else ("val", v))))
+                else:
+                    flt.append((case["cols"][i], gen_model_cond(rng, case["kinds"][i], 0.08, 0.06, col_dom(case, i))))
             columns = gen_columns(rng, case)
             if columns is not None and rng.random() < 0.06 and flt:
                 columns = columns + ["zz"]         # unknown projected column (with a filter every API raises KeyError)
             elif rng.random() < 0.05:
                 columns = []                       # empty projection: scan() loses the rows in pa.concat_tables (modelled)
-            fpy = sqlref.filter_py(flt)
-            ph = phase_of(fpy)
+            reqs.append((flt, columns))
+        gen.append((case, reqs))
+    jobs = [("w_run_pipelines", (os.path.join(ctx.scratch, f"p{t}"), {k: case[k] for k in ("cols", "kinds", "files")},
+                                 [(c, sqlref.filter_py(f)) for f, c in reqs]), job_timeout(case, len(reqs)))
+            for t, (case, reqs) in enumerate(gen)]
+    ran = pool().map(jobs)
+    for (case, reqs), (status, val) in zip(gen, ran):
+        if status == "skipped":
+            continue
+        if status != "ok":
+            if status in ("timeout", "died"):
+                ctx.violation(f"library-{'hang' if status == 'timeout' else 'died'}:scan",
+                              f"[pipelines] the library did not finish ({status} {val}) on a table with filters "
+                              f"{[sqlref.filter_py(f) for f, _c in reqs][:3]!r} ...", case_json(case, reqs[0][0] if reqs else [], reqs[0][1] if reqs else None,
+                                                                                             {"verdict": "library-" + status}))
+            else:
+                ctx.proof_problems.append(f"pipelines case could not be run: {str(val)[-400:]}")
+            continue
+        cols, kinds = case["cols"], case["kinds"]
+        colnum = {c: i for i, c in enumerate(cols)}
+        colnum["zz"] = 50
+        files_coq = "[" + "; ".join(f"{{| frows := {rows_coq(f, colnum)}; fcs := true |}}" for f in case["files"]) + "]"
+        sch = "[" + "; ".join(str(colnum[c]) for c in cols) + "]"
+        ids = "[" + "; ".join(f"({colnum[c]}, {i + 1})" for i, c in enumerate(cols)) + "]"
+        kinds_coq = "[" + "; ".join(f"({colnum[c]}, {KIND_COQ[k]})" for c, k in zip(cols, kinds)) + "]"
+        for (flt, columns), (_ph, gots) in zip(reqs, val):
             cols_coq = "None" if columns is None else "(Some [" + "; ".join(str(colnum[c]) for c in columns) + "])"
             common = f"X0 (E0 {kinds_coq}) PA0 {sch} {ids} (fun f => file_bounds {ids} (frows f))"
             fl = filter_coq(flt, colnum)
@@ -1050,22 +1350,14 @@ def corr_pipelines(ctx) -> None:
                 "b2": f"code_of (bind (scan_batches {common} (chunk 2) {cols_coq} {fl} {files_coq}) (fun bs => Ok (List.concat bs))) []",
                 "iter": f"code_of (iter_records {common} {cols_coq} {fl} {files_coq}) []",
             }
-            for name, fn, mkey in MODEL_APIS:
-                try:
-                    rows = fn(table, list(columns) if columns is not None else None, fpy)
-                    got: Tuple[int, Any] = (0, rows)
-                except KeyError:
-                    got = (4, [])
-                except Exception:  # noqa: BLE001
-                    got = (ph if ph else 3, [])
+            for (name, _fn, mkey), got in zip(MODEL_APIS, gots):
                 # the model's rows are rendered next to the implementation's so that both are parsed alike
                 out_cols = columns if columns is not None else cols
                 exp_rows = "[" + "; ".join("[" + "; ".join(f"({colnum[c]}, {val_to_coq(r[c])})" for c in out_cols if c in r) + "]" for r in got[1]) + "]" if got[0] == 0 else "[]"
                 exprs.append(f"({model_terms[mkey]}, ({got[0]}, ({exp_rows} : list row)))")
                 impl.append(got)
                 descs.append({"api": name, "case": case_json(case, flt, columns)})
-        shutil.rmtree(path, ignore_errors=True)
-    got = coqbuild.coq_eval(REQ, exprs, preamble=PREAMBLE, chunk=120)
+    got = coqbuild.coq_eval(REQ, exprs, preamble=PREAMBLE, chunk=60)
     bad = []
     errs = 0
     for d, g3 in zip(descs, got):
@@ -1121,7 +1413,8 @@ def run(ctx) -> None:
 
     timed("proofs", lambda c: (c.proofs(THEOREMS, gen_files=GEN_FILES), c.allow_axioms([])))
     # implementation-only oracles always run: they are the search for a concrete failing input
-    for name, fn in (("corpus", oracle_corpus), ("malformed", oracle_malformed), ("edges", oracle_edges), ("e2e", oracle_e2e)):
+    for name, fn in (("corpus", oracle_corpus), ("malformed", oracle_malformed), ("edges", oracle_edges), ("extremes", oracle_extremes),
+                     ("e2e", oracle_e2e)):
         timed("oracle_" + name, fn)
     try:
         for name, fn in (("prims", corr_prims), ("parse", corr_parse), ("build", corr_build), ("pipelines", corr_pipelines)):
